@@ -783,7 +783,33 @@ fn gen_server(repo: &Path, g: &mut Gen) -> R<()> {
         if v.inside + v.outside == 0 { return shape(sv_rel, "the accept loop does not call handle_stream"); }
         v.outside == 0
     };
+    // the endpoint's accept loop (`listen`): what it awaits between two `accept()`s. Handing a connection to a task of its own
+    // and the shutdown are all there is; anything else awaited there (a report, a query to a router) can be held up by a
+    // topic and then no new connection is accepted.
+    let loop_free = {
+        let lb = fns.get("listen").ok_or_else(|| Shape(format!("{sv_rel}: fn listen not found")))?;
+        let lt = quote::quote!(#lb).to_string();
+        if !lt.contains("accept ()") { return shape(sv_rel, "listen(): no accept() call"); }
+        let mut ok = true;
+        let mut from = 0usize;
+        while let Some(i) = lt[from..].find(". await") {
+            let at = from + i;
+            let start = lt[..at].rfind(|c| c == ';' || c == '{' || c == ',').map(|k| k + 1).unwrap_or(0);
+            let mut call = lt[start..at].trim().to_string();
+            if let Some(k) = call.rfind("=>") { call = call[k + 2..].trim().to_string(); }
+            let call = call.trim_start_matches("let _ =").trim().to_string();
+            if !(call.starts_with("self . connect (") || call.starts_with("self . shutdown (")) { ok = false; }
+            from = at + 7;
+        }
+        // `connect` itself awaits nothing outside the task it spawns
+        let cb = fns.get("connect").ok_or_else(|| Shape(format!("{sv_rel}: fn connect not found")))?;
+        let ct = quote::quote!(#cb).to_string();
+        let sp = ct.find("spawn (").unwrap_or(ct.len());
+        if ct[..sp].contains(". await") { ok = false; }
+        ok
+    };
     let mut s = String::new();
+    let _ = writeln!(s, "/-- {sv_rel}: between two `accept()`s the endpoint's loop awaits nothing but handing the connection to a task of its own, and the shutdown -/\ndef endpointLoopAwaitsNothingElse : Bool := {loop_free}");
     let _ = writeln!(s, "/-- {sv_rel}: the connection's accept loop hands every stream to a task of its own (`spawn(handle_stream(…))`) -/\ndef streamsHandledInOwnTasks : Bool := {spawned}");
     let _ = writeln!(s, "/-- `SOCK_CHANNEL_SIZE` of the pub/sub and request/reply routers -/\ndef pubsubChannelSize : Nat := {ps_size}\ndef reqrepChannelSize : Nat := {rr_size}");
     let _ = writeln!(s, "/-- does `handle_stream` await a channel `send` while the guard of the global `topics` lock is in scope? -/\ndef lockHeldAcrossSend : Bool := {}", held);
